@@ -36,7 +36,8 @@ def check_image(data, sess_model=None, counters=None, api_iso=None):
         nrec += sum(len(d.records) for d in vol.dirs.values())
         for (dpath, a, b) in vol.fields.get('sort_93', [])[:3]:
             cls = 'sep-vs-digit'
-            vio.append({'key': '%ssort:bytewise-vs-9.3' % ('' if vol.kind == 'pvd' else vol.kind + ':'),
+            # (the enhanced descriptor describes the very same directory sectors as the PVD)
+            vio.append({'key': '%ssort:bytewise-vs-9.3' % ('' if vol.kind in ('pvd', 'enhanced') else vol.kind + ':'),
                         'detail': '%s: %r recorded before %r (bytewise order) but ECMA-119 9.3 orders them the other way' % (dpath, a, b)})
     counters['records_decoded'] = counters.get('records_decoded', 0) + nrec
     if len(data) != dec.space_size * 2048 and dec.pvd is not None:
